@@ -2767,11 +2767,14 @@ def _iterate_flattened_values(value):
     yield value
     return
 
+  nested_values = value
   if isinstance(value, collections.abc.Mapping):
-    value = collections.abc.ValuesView(value)  # pytype: disable=wrong-arg-count
+    # Keys may hold references and macros too (`{%name: 1}`): they are evaluated
+    # when the value is used, so they are visited as well.
+    nested_values = list(value.keys()) + list(value.values())
 
-  if isinstance(value, collections.abc.Iterable):
-    for nested_value in value:
+  if isinstance(nested_values, collections.abc.Iterable):
+    for nested_value in nested_values:
       for nested_nested_value in _iterate_flattened_values(nested_value):
         yield nested_nested_value
 
